@@ -185,6 +185,8 @@ class SpatialDerivativesQuadratic:
     target = "deepali.core.image:spatial_derivatives"
     properties = ("C12",)
     QSHAPES = {2: (6, 7), 3: (5, 5, 6)}
+    # bounded (float32) evaluation only: second differences divide rounding noise of O(30 eps) by h^2 with h down to 1/4
+    tol = 2e-3
 
     def cases(self, tier):
         for D in (2, 3):
@@ -231,8 +233,13 @@ class SpatialDerivativesBSpline:
         yield {"D": 2, "n": [5, 6], "stride": 1, "order": 1}
         yield {"D": 2, "n": [5, 5], "stride": 2, "order": 1}
         yield {"D": 2, "n": [5, 5], "stride": [2, 1], "order": 2}
+        # 3-D: all second-order keys in one request (each mixed derivative is divided by its own two spacings), and one
+        # mixed key on its own ("a subset request equals the full request")
+        yield {"D": 3, "n": [4, 4, 4], "stride": 1, "order": 2}
+        yield {"D": 3, "n": [4, 4, 4], "stride": 1, "which": ["xz", "yz"]}
         if tier == "thorough":
             yield {"D": 3, "n": [4, 5, 4], "stride": 1, "order": 1}
+            yield {"D": 3, "n": [4, 5, 4], "stride": [2, 1, 1], "order": 2}
 
     def run(self, case, K):
         from deepali.core.image import spatial_derivatives
@@ -243,7 +250,10 @@ class SpatialDerivativesBSpline:
         ec = K.reals("c", (N, 1) + n)
         c = K.tensor(ec, dtype=torch.float64 if K.mode == "sym" else torch.float32)
         s = case["stride"]
-        res = K.call(spatial_derivatives, c, mode="bspline", order=case["order"], spacing=arg, stride=s)
+        if "which" in case:
+            res = K.call(spatial_derivatives, c, mode="bspline", which=case["which"], spacing=arg, stride=s)
+        else:
+            res = K.call(spatial_derivatives, c, mode="bspline", order=case["order"], spacing=arg, stride=s)
         if not K.ensure_returns(res):
             return
         st = [s] * D if isinstance(s, int) else list(s)  # (sx, ...)
@@ -256,6 +266,43 @@ class SpatialDerivativesBSpline:
                 den = E.mul(*[E.pow_(sp[nn][d], order[d]) for d in range(D)])
                 want[nn] = np.frompyfunc(lambda v, den=den: E.div(v, den), 1, 1)(want[nn])
             K.ensure_eq(f"bspline[{key}]", val, want, text=Q12B + " (divided by spacing^order per batch item)")
+
+
+@register
+class GaussianModeSpacing:
+    """Gaussian-derivative mode is not an exact scheme (its kernels are not normalised), but it is *one* scheme for all
+    axes: on a field that is linear in world position, the derivative along axis d is kappa * (slope along d) with the same
+    mode constant kappa for every axis, whatever the (anisotropic, per-batch) spacing - every derivative is taken with
+    respect to the spacing of its own axis."""
+
+    target = "deepali.core.image:spatial_derivatives"
+    properties = ("C12", "C13")
+
+    def cases(self, tier):
+        for D in (2, 3):
+            yield {"D": D}
+
+    def run(self, case, K):
+        from deepali.core.image import spatial_derivatives
+
+        D = case["D"]
+        shape = {2: (9, 10), 3: (9, 9, 10)}[D]
+        N = 2
+        arg, sp = spacing_arg(K, "ND", N, D)
+        vals, A, Q = poly_field(K, "f", N, 1, shape, sp, degree=1)
+        res = K.call(spatial_derivatives, K.tensor(vals), mode="gaussian", order=1, spacing=arg)
+        if not K.ensure_returns(res):
+            return
+        keys = XYZ[:D]
+        centre = tuple(n // 2 for n in shape)
+        for n in range(N):
+            ref = K.val(res[keys[0]])[(n, 0) + centre]
+            a0 = A[(n, 0)][0]
+            for d in range(1, D):
+                got = K.val(res[keys[d]])[(n, 0) + centre]
+                # got / a_d == ref / a_0   <=>   got * a_0 == ref * a_d
+                K.ensure_eq(f"same-constant[{n},{keys[d]}]", E.mul(got, a0), E.mul(ref, A[(n, 0)][d]),
+                            text="C12: derivatives ... with respect to the given spacing (gaussian mode: the same mode constant for every axis, each derivative divided by the spacing of its own axis)")
 
 
 def affine_flow_field(K, N, D, shape, sp, name="u"):
@@ -392,8 +439,13 @@ class LieBracket:
                 if tier == "quick" and D == 3 and mode != "central":
                     continue
                 yield {"D": D, "mode": mode, "what": "affine"}
+        # batches of two fields with a spacing per batch item
+        for form in ("ND", "N1"):
+            yield {"D": 2, "mode": "forward_central_backward", "what": "affine", "batch": 2, "spacing": form}
         for mode in FD_MODES if tier == "thorough" else ("forward_central_backward",):
             yield {"D": 2, "mode": mode, "what": "algebra"}
+        # with Gaussian pre-smoothing of the fields (both Jacobians are taken of equally smoothed fields)
+        yield {"D": 2, "mode": "forward_central_backward", "what": "algebra", "sigma": 0.7}
 
     def run(self, case, K):
         from deepali.core.flow import lie_bracket
@@ -406,22 +458,26 @@ class LieBracket:
             eu, ev, ew = K.reals("u", (N, D) + shape), K.reals("v", (N, D) + shape), K.reals("w", (N, D) + shape)
             al = K.real("alpha")
             u, v, w = K.tensor(eu), K.tensor(ev), K.tensor(ew)
-            vu = K.call(lie_bracket, v, u, mode=mode)
-            uv = K.call(lie_bracket, u, v, mode=mode)
+            kw = {"sigma": case["sigma"]} if "sigma" in case else {}
+            vu = K.call(lie_bracket, v, u, mode=mode, **kw)
+            uv = K.call(lie_bracket, u, v, mode=mode, **kw)
             if not (K.ensure_returns(vu) and K.ensure_returns(uv)):
                 return
             t = "C13: the Lie bracket is bilinear and antisymmetric"
             K.ensure_eq("antisymmetric", vu, np.frompyfunc(E.neg, 1, 1)(K.val(uv)), text=t)
+            uu = K.call(lie_bracket, u, u, mode=mode, **kw)
+            if K.ensure_returns(uu):
+                K.ensure_eq("self-bracket", uu, np.full(K.val(uu).shape, E.ZERO, dtype=object), text=t + " ([u, u] = 0)")
             comb = K.tensor(np.frompyfunc(lambda a, b: E.add(E.mul(al, a), b), 2, 1)(ev, ew))
-            lhs = K.call(lie_bracket, comb, u, mode=mode)
-            wu = K.call(lie_bracket, w, u, mode=mode)
+            lhs = K.call(lie_bracket, comb, u, mode=mode, **kw)
+            wu = K.call(lie_bracket, w, u, mode=mode, **kw)
             if K.ensure_returns(lhs) and K.ensure_returns(wu):
                 rhs = np.frompyfunc(lambda a, b: E.add(E.mul(al, a), b), 2, 1)(K.val(vu), K.val(wu))
                 K.ensure_eq("bilinear", lhs, rhs, text=t)
             return
         shape = SHAPES[D]
-        N = 1
-        arg, sp = spacing_arg(K, "vector", N, D)
+        N = case.get("batch", 1)
+        arg, sp = spacing_arg(K, case.get("spacing", "vector"), N, D)
         uvals, Au, bu = affine_flow_field(K, N, D, shape, sp, "u")
         vvals, Av, bv = affine_flow_field(K, N, D, shape, sp, "v")
         u, v = K.tensor(uvals), K.tensor(vvals)
@@ -430,10 +486,11 @@ class LieBracket:
             return
         # [v, u] = J_v u - J_u v
         want = np.empty((N, D) + shape, dtype=object)
-        for idx in np.ndindex(*shape):
-            for i in range(D):
-                want[(0, i) + idx] = E.sub(E.add(*[E.mul(Av[0][i, j], uvals[(0, j) + idx]) for j in range(D)]),
-                                           E.add(*[E.mul(Au[0][i, j], vvals[(0, j) + idx]) for j in range(D)]))
+        for n in range(N):
+            for idx in np.ndindex(*shape):
+                for i in range(D):
+                    want[(n, i) + idx] = E.sub(E.add(*[E.mul(Av[n][i, j], uvals[(n, j) + idx]) for j in range(D)]),
+                                               E.add(*[E.mul(Au[n][i, j], vvals[(n, j) + idx]) for j in range(D)]))
         mg = {d: 1 for d in range(D)} if mode in ("forward", "backward", "central") else {}
         sl = interior(shape, D, mg)
         K.ensure_eq("bracket", K.val(res)[sl], want[sl], text=Q12 + " [Lie bracket [v, u] = J_v u - J_u v]")
